@@ -175,7 +175,16 @@ def bandVerdicts (args : List String) (res : Option (List String)) : List (Strin
                      (match Spec.maxPayloadCell cfg (keyIndex v) (keyIndex r) d with
                       | some (m', n') => if m == m' && n == n' then [] else [("C13", "max-payload-size-is-not-the-cell-the-version-revision-fallback-selects")]
                       | none => [("C13", "max-payload-size-returned-for-a-cell-the-tables-do-not-have")])
-                   | _, _, _ => [])
+                   | _, _, _ => []) ++
+                  -- repeater-compatible sizes never exceed the non-repeater ones: the same cell of the sibling configuration
+                  (match rest[0]?, rest[1]?, ai 2, findCfg key (rep == 0) dw with
+                   | some v, some r, some d, some sib =>
+                     (match Spec.maxPayloadCell sib (keyIndex v) (keyIndex r) d with
+                      | some (m', n') =>
+                        let (rm, rn, nm, nn) := if rep != 0 then (m, n, m', n') else (m', n', m, n)
+                        if rm ≤ nm && rn ≤ nn then [] else [("C13", "repeater-compatible-size-exceeds-the-non-repeater-size")]
+                      | none => [])
+                   | _, _, _, _ => [])
                 | _, _ => [])
              | ["ERR"] =>
                (match rest[0]?, rest[1]?, ai 2 with
@@ -234,7 +243,12 @@ def bandVerdicts (args : List String) (res : Option (List String)) : List (Strin
              | _, _, _ => [])
           | "cflist" =>
             (match out with
-             | [tok] =>
+             | [tok, macTok] =>
+               -- what the implementation's own MAC layer did with this CFList (join-accept payload encoded and decoded back)
+               (if macTok == "mac=0" then
+                  (if cfg.family == .ism2400 then [("C15", "KNOWN:c15-ism2400-frequencies-not-encodable")]
+                   else if !histAddsValid false hist then [] else [("C15", "cflist-not-carried-by-the-mac-layer")])
+                else []) ++
                (match parseCFList tok with
                 | some (some l) =>
                   (match l.payload with
